@@ -152,6 +152,19 @@ def compare(orig, ep, osem, esem, info):
     return d
 
 
+def split_files(src, top):
+    """the program text spread over lib.mro (everything before the top-level pipeline),
+    top1.mro (top-level pipeline and call) and other.mro (a second file using the same
+    definitions); None if the text is not laid out definitions-first"""
+    i = src.find("\npipeline %s(" % top)
+    if i < 0:
+        return None
+    lib, rest = src[:i + 1], src[i + 1:]
+    if "\nstage " in rest or "\nstruct " in rest or "\nfiletype " in rest or rest.count("\npipeline ") > 0 or not lib.strip():
+        return None
+    return {"lib.mro": lib, "top1.mro": '@include "lib.mro"\n\n' + rest, "other.mro": '@include "lib.mro"\n\nfiletype zzother;\n'}
+
+
 def run(tier, replay=None):
     t0 = time.time()
     vlib.go_build()
@@ -209,9 +222,36 @@ def run(tier, replay=None):
                 cases.append({"id": "%s:%s:back" % (q["name"], label), "dir": d2, "rc": r2.returncode, "err": r2.stderr[-400:],
                               "prog": q["name"], "info": {}, "flags": flags + ["then", "--rename", "%s=%s" % (new, old)], "src": src,
                               "back": True, "renamed": (old, new)})
+    # the same operations on the program spread over several files, all of them named to
+    # `mro edit`: definitions in lib.mro, the top-level pipeline and call in top1.mro, and
+    # a second top-level file that includes the same definitions
+    nmulti = 0
+    for q in progs:
+        src = q.get("src") or mro.render(q, stage_lang="comp", stage_src="s")
+        parts = split_files(src, q["top"]["callee"])
+        if parts is None:
+            continue
+        for label, flags, info in refcorpus.ops(q):
+            # (every file of the set is named: the tool rewrites the files it is given)
+            orders = [["top1.mro", "lib.mro", "other.mro"]]
+            if info.get("unused"):
+                orders += [["other.mro", "top1.mro", "lib.mro"], ["lib.mro", "other.mro", "top1.mro"]]
+            for oi, order in enumerate(orders):
+                d = os.path.join(wd, "%s_%d" % (q["name"], len(cases)))
+                os.makedirs(d)
+                for fn, text in parts.items():
+                    open(os.path.join(d, fn), "w").write(text)
+                r = subprocess.run([mrobin, "edit", "-w"] + flags + order, cwd=d, env=dict(os.environ, MROPATH=d),
+                                   stdout=subprocess.PIPE, stderr=subprocess.PIPE, text=True, timeout=120)
+                now = "".join(open(os.path.join(d, fn)).read() for fn in sorted(parts))
+                cases.append({"id": "%s:%s:files%d" % (q["name"], label, oi), "dir": d, "rc": r.returncode, "err": r.stderr[-400:],
+                              "prog": q["name"], "info": info, "flags": flags + order, "src": src, "top": "top1.mro",
+                              "unchanged": now == "".join(parts[fn] for fn in sorted(parts)),
+                              "files": {fn: open(os.path.join(d, fn)).read() for fn in sorted(parts)}})
+                nmulti += 1
     with open(os.path.join(wd, "b.ndjson"), "w") as f:
         for c in cases:
-            f.write(json.dumps({"Id": c["id"], "Dir": c["dir"], "Top": "p.mro"}) + "\n")
+            f.write(json.dumps({"Id": c["id"], "Dir": c["dir"], "Top": c.get("top", "p.mro")}) + "\n")
     p = subprocess.run([os.path.join(vlib.BUILD, "bin", "vh"), "ast-batch", os.path.join(wd, "b.ndjson"), os.path.join(wd, "abs.ndjson")],
                        stdout=subprocess.PIPE, stderr=subprocess.PIPE, text=True, env=vlib.GOENV, timeout=1200)
     if p.returncode != 0:
@@ -231,8 +271,8 @@ def run(tier, replay=None):
         a = absd[c["id"]]
         edited = a.get("text") or ""
         if c["rc"] != 0:
-            now = open(os.path.join(c["dir"], "p.mro")).read()
-            if now == c["src"] or c.get("back"):
+            now = open(os.path.join(c["dir"], "p.mro")).read() if "files" not in c else None
+            if (c["unchanged"] if "files" in c else now == c["src"]) or c.get("back"):
                 add(c, "edit-fails", "mro edit exits with %s: %s" % (c["rc"], c["err"].replace("\n", " ")))
                 continue
             # the files were rewritten before the tool stopped: they are what is judged; the
@@ -249,7 +289,8 @@ def run(tier, replay=None):
             if "* =" in c["src"] and "ArgumentNotSuppliedError" in (a.get("error") or "") and prm[1] and \
                     ("'%s'" % prm[1] in a["error"] or "'%s'" % prm[2] in a["error"]):
                 kind = "does-not-compile-renamed-parameter-bound-by-wildcard"
-            add(c, kind, (a.get("error") or "").replace("\n", " "), open(os.path.join(c["dir"], "p.mro")).read())
+            add(c, kind, (a.get("error") or "").replace("\n", " "),
+                open(os.path.join(c["dir"], "p.mro")).read() if "files" not in c else json.dumps(c["files"], indent=1))
             continue
         try:
             rules, chunks = rules_for(byname[c["prog"]], c["info"])
@@ -277,11 +318,11 @@ def run(tier, replay=None):
     vlib.write_evidence("C19", tier, "model_checking", {
         "states": len(sem_in), "transitions": len(cases), "exhaustive": True,
         "traces_validated_against_impl": len(cases),
-        "programs": [q["name"] for q in progs], "edits_applied": len(cases), "edit_kinds": kinds,
+        "programs": [q["name"] for q in progs], "edits_applied": len(cases), "edits_on_several_files": nmulti, "edit_kinds": kinds,
         "edited_programs_evaluated_by_tlc": len(todo), "semantics_wall_s": round(semres.wall, 1),
         "samples": [{"edit": cases[0]["id"], "flags": cases[0]["flags"]}], "known_findings_hit": hit,
     }, [
-        "real `mro edit -w` (cmd/mro) on single-file programs; one operation at a time, plus rename there and back",
+        "real `mro edit -w` (cmd/mro) on single-file programs and on the same programs spread over three files named to the tool in several orders; one operation at a time, plus rename there and back and combined operations",
         "stage behaviour is a constant per (stage, output) of the original program, carried over the renames; the edited program is abstracted from the compiled real syntax tree (harness/absast, lib/absconv.py)",
         "equality of behaviour = equal MroSem evaluation (stage invocations with arguments / outputs / dependencies, top-level outputs) up to the operation's renaming or removal; calls keep or change their name with a renamed callable (alias), both are accepted",
         "--remove-input is applied to stage inputs only (as its documentation says); --remove-output only to outputs nothing refers to",
